@@ -4,7 +4,8 @@
   A dual number carries a value, the derivative of that value with respect to one chosen
   variable, and a flag saying that every operation so far was applied inside the domain on which
   its textbook derivative rule is valid (`b ≠ 0` for `a / b`, `a ≠ 0` for the general power
-  rule `a ^ b`, which mentions `ln a`).  The rules below are the ones of a calculus textbook, written
+  rule `a ^ b`, which mentions `ln a`).  Comparisons are carried along unchanged and `x if c`,
+  `y else z` are differentiated branch-wise (C18).  The rules below are the ones of a calculus textbook, written
   down here independently of src/expression/partial.rs; "the mathematical derivative" of C05 is the
   `der` component of evaluating the *same expression* over this interpretation.
 -/
@@ -20,6 +21,8 @@ structure DArith (K : Type) where
   pow : K → K → K
   /-- the unary operators by name (`-`, `sqrt`, `ln`, `sin`, ...) -/
   fn : String → K → K
+  /-- the other binary operators by name (comparisons, `if`, `else`) -/
+  bop : String → K → K → K
   zero : K
   one : K
   two : K
@@ -45,6 +48,17 @@ def dualBin : String → DVal K → DVal K → Option (DVal K)
           D.add (D.mul (D.mul (D.pow a (D.sub b D.one)) b) a')
                 (D.mul (D.mul (D.pow a b) (D.fn "ln" a)) b'),
           p && q && decide (a ≠ D.zero)⟩
+  -- a comparison is carried along unchanged: value and "derivative" are the comparison itself
+  | ">", ⟨a, _, p⟩, ⟨b, _, q⟩ => some ⟨D.bop ">" a b, D.bop ">" a b, p && q⟩
+  | "<", ⟨a, _, p⟩, ⟨b, _, q⟩ => some ⟨D.bop "<" a b, D.bop "<" a b, p && q⟩
+  | ">=", ⟨a, _, p⟩, ⟨b, _, q⟩ => some ⟨D.bop ">=" a b, D.bop ">=" a b, p && q⟩
+  | "<=", ⟨a, _, p⟩, ⟨b, _, q⟩ => some ⟨D.bop "<=" a b, D.bop "<=" a b, p && q⟩
+  | "==", ⟨a, _, p⟩, ⟨b, _, q⟩ => some ⟨D.bop "==" a b, D.bop "==" a b, p && q⟩
+  | "!=", ⟨a, _, p⟩, ⟨b, _, q⟩ => some ⟨D.bop "!=" a b, D.bop "!=" a b, p && q⟩
+  -- `x if c` and `y else z` are differentiated operand-wise (branch-wise): the condition of the
+  -- derivative is the carried condition
+  | "if", ⟨a, a', p⟩, ⟨b, b', q⟩ => some ⟨D.bop "if" a b, D.bop "if" a' b', p && q⟩
+  | "else", ⟨a, a', p⟩, ⟨b, b', q⟩ => some ⟨D.bop "else" a b, D.bop "else" a' b', p && q⟩
   | _, _, _ => none
 
 /-- the derivative of each differentiable unary operator at `a` -/
@@ -88,6 +102,7 @@ def dArith : DArith K where
   div := fun a b => match findBinOp t "/".toList with | .ok o => I.bin o.idx a b | .error _ => I.dflt
   pow := fun a b => match findBinOp t "^".toList with | .ok o => I.bin o.idx a b | .error _ => I.dflt
   fn := fun n a => match findUnaryOp t n.toList with | .ok u => I.un u a | .error _ => I.dflt
+  bop := fun n a b => match findBinOp t n.toList with | .ok o => I.bin o.idx a b | .error _ => I.dflt
   zero := C.zero
   one := C.one
   two := C.two
